@@ -33,14 +33,14 @@ BUDGET = {"quick": (4, 400), "thorough": (16, 4000)}
 ASSUMPTIONS = ["From(...) is the first positional argument of a predicate-form term",
                "entities compare by identity (eq=False)"]
 
-FIELDS = {"Ent": ["k", "a", "b", "s", "tags", "o", "ref"], "EntSubSub": ["k", "a", "b", "s", "tags", "o", "ref"], "EntV": ["k", "a", "b", "s", "tags", "o", "ref"], "EntSub": ["k", "a", "b", "s", "tags", "o", "ref"],
+FIELDS = {"EntKw": ["k", "a", "b", "s", "tags", "o", "ref", "w"], "Ent": ["k", "a", "b", "s", "tags", "o", "ref"], "EntSubSub": ["k", "a", "b", "s", "tags", "o", "ref"], "EntV": ["k", "a", "b", "s", "tags", "o", "ref"], "EntSub": ["k", "a", "b", "s", "tags", "o", "ref"],
           "EntPlain": ["k", "a", "b", "s", "tags", "o", "ref"], "Other": ["k", "a", "ref"]}
 
 
 def _value_for(draw, field, P, recs, depth, doms):
     if field == "k":
         return ["const", draw(st.integers(1, len(recs)))]
-    if field in ("a", "b"):
+    if field in ("a", "b", "w"):
         return ["const", draw(st.sampled_from(P["ints"]))]
     if field == "s":
         return ["const", draw(st.sampled_from(P["strs"]))]
@@ -56,7 +56,7 @@ def _value_for(draw, field, P, recs, depth, doms):
 
 
 def _term(draw, P, recs, depth, doms):
-    cls = draw(st.sampled_from(["Ent", "Ent", "Ent", "EntSub", "EntPlain", "EntV", "Other"]))
+    cls = draw(st.sampled_from(["Ent", "Ent", "Ent", "EntSub", "EntPlain", "EntV", "EntKw", "EntKw", "Other"]))
     fields = FIELDS[cls]
     npos = draw(st.sampled_from([0, 0, 0, 1, 2]))
     npos = min(npos, 2 if cls != "Other" else 2)
